@@ -70,7 +70,7 @@ E2_ASSUME = [
     "bounded scenarios (<=3 connections, <=2 pollers, <=6 chunks, <=30000 scheduling steps); sampled schedules (uniform walk, few-preemption, PCT-style priorities), not all interleavings",
 ]
 
-def _e2(test, text, rule, quick=2500, thorough=60000, **kw):
+def _e2(test, text, rule, quick=2500, thorough=50000, **kw):
     d = {
         "engine": "E2 simworld",
         "test": test,
@@ -112,13 +112,13 @@ PROPS.update({
         engine="E2 simworld + E3 livenet",
         technique="generated schedule search over the hand-off windows (E2) plus generated bulk workloads on real sockets (E3), both against a position-keyed stream oracle",
         parts=[
-            {"test": "TestVerifC04", "variant": "instr", "chunk": 2500, "quick": {"checks": 1500, "shards": 16}, "thorough": {"checks": 30000, "shards": 16}, "replay_marker": "decisions"},
-            {"test": "TestVerifC04Live", "variant": "plain", "chunk": 0, "crash_is_violation": True, "shrinktime": "5s", "quick": {"checks": 12, "shards": 8}, "thorough": {"checks": 300, "shards": 12}, "replay_marker": "network"},
+            {"test": "TestVerifC04", "variant": "instr", "chunk": 2500, "quick": {"checks": 1500, "shards": 16}, "thorough": {"checks": 20000, "shards": 16}, "replay_marker": "decisions"},
+            {"test": "TestVerifC04Live", "variant": "plain", "chunk": 0, "crash_is_violation": True, "shrinktime": "5s", "quick": {"checks": 12, "shards": 8}, "thorough": {"checks": 150, "shards": 12}, "replay_marker": "network"},
         ],
         assumptions=E2_ASSUME + ["E3: interleavings and partial-write boundaries are the OS's choice; a stall is reported only after 30 s without a single byte of progress; a failing scenario is re-run 10 times to state its reproduction rate"]),
     "C17": _e2("TestVerifC17", "Generated adders, bursts, Close position and schedules over the real ShardQueue (its atomics, spin locks and worker task are schedule points); exactly-once and 'flushed without a further Add' are judged at exact quiescence.",
                "scenario = 1-4 shards x 1-4 adder goroutines x 1-5 Add calls of 1-3 getters x optional Close after k Adds returned x 0-2 Adds after Close returned; non-trivial = at least two worker tasks ran, or an Add from one of several adders raced the first worker; distinct = scenario + event sequence + number of steps",
-               quick=4000, thorough=100000, pkg="mux"),
+               quick=4000, thorough=80000, pkg="mux"),
     "C11": _e2("TestVerifC11", "Harness FDOperators with recording callbacks on a real poller whose Wait loop is an actor; generated peer scripts make the kernel itself produce IN/OUT/RDHUP/HUP/ERR combinations (no synthetic flag sets); per-descriptor callback histories are judged at exact quiescence.",
                "scenario = 1-5 descriptors (+120-140 idle ones in 5% of the cases, crossing the 128-event array growth) x Inputs buffer size x optional output stream through Outputs/OutputAck with a 2 KiB socket buffer x peer script (writes, reads, shutdown, close, close with unread data) x user detach x Trigger x Close; non-trivial = at least two descriptors and one of them got data and hang-up; distinct = scenario + event sequence",
                quick=1500, thorough=40000),
@@ -126,8 +126,8 @@ PROPS.update({
                "E2: 1-3 clients x {connect, connect+write, connect+close, connect+write+close} x OnConnect or not, two pollers, generated schedule; non-trivial = a client's close fell within 25 steps of its connection's OnPrepare. E3: 0-4 idle, 0-3 busy (handler blocked until released), 0-3 closing clients, 0-2 connections whose handler has returned while a server goroutine still sends a 2-12 MiB response the client has not read x Shutdown deadline before/after the handlers' release x tcp4/unix, or an accept-fails-with-EMFILE stretch of 20/150/700/2300 ms with clients queued meanwhile; non-trivial = at least one busy and one idle connection at Shutdown, or a close racing the accept; distinct = scenario (+ event sequence for E2)"),
         engine="E2 simworld + E3 livenet",
         parts=[
-            {"test": "TestVerifC13", "variant": "instr", "chunk": 2500, "quick": {"checks": 1500, "shards": 16}, "thorough": {"checks": 40000, "shards": 16}, "replay_marker": "decisions"},
-            {"test": "TestVerifC13Live", "variant": "plain", "chunk": 0, "crash_is_violation": True, "shrinktime": "10s", "quick": {"checks": 8, "shards": 8}, "thorough": {"checks": 150, "shards": 12}, "replay_marker": "deadline_ms"},
+            {"test": "TestVerifC13", "variant": "instr", "chunk": 2500, "quick": {"checks": 1500, "shards": 16}, "thorough": {"checks": 25000, "shards": 16}, "replay_marker": "decisions"},
+            {"test": "TestVerifC13Live", "variant": "plain", "chunk": 0, "crash_is_violation": True, "shrinktime": "10s", "quick": {"checks": 8, "shards": 8}, "thorough": {"checks": 100, "shards": 12}, "replay_marker": "deadline_ms"},
         ]),
 })
 
